@@ -23,7 +23,7 @@ REGRESSION = [
     "1e-17 == 0", "0.1 + 0.2 == 0.3", "1/0 == 1/0", "-1/0 == -1/0", "1/0 ~= 1/0", "1e-17 ~= 0", "2^53 == 2^53 + 1",
     "`{ x }`", "`a{ x }b`", "`{ x.k }`", "`{ {} }`",
     "0/0 .. ''", "-(0/0) .. ''", "'x' .. 0/0 .. 'y'", "(0/0 .. '') == 'NaN'", "#(0/0 .. '')",
-    "0xff + 0", "0x10p0 + 0", "'0x' .. 1", "1e400", "-1e400 .. ''", "2^53 .. ''", "2^31 .. ''", "100 / 2 .. ''",
+    "0xff + 0", "'0x' .. 1", "1e400", "-1e400 .. ''", "2^53 .. ''", "2^31 .. ''", "100 / 2 .. ''",
     "true and x()", "false or ...", "(true and x())", "nil and x()", "x and x()",
 ]
 
@@ -84,7 +84,7 @@ def observe_and_judge(wd, label, cases, uni, cap, chunk=3000, workers=12, overri
         part = os.path.join(wd, "%s-chunk%d.ndjson" % (label, k))
         with open(part, "w") as f:
             f.write("\n".join(part_lines) + "\n")
-        r = tlc("trace/EvalTrace", workers=workers, timeout=7200, env={"CASES": part}, xmx="24g", metaname="EvalTrace")
+        r = tlc("trace/EvalTrace", workers=workers, timeout=7200, env={"CASES": part}, xmx="10g", metaname="EvalTrace")
         tlc_ok(r, "EvalTrace(%s chunk %d)" % (label, k))
         vs = r.tagged("VERDICT")
         if len(vs) != len(part_lines):
@@ -154,7 +154,8 @@ def classify(rep, uni, recs, status_by, verdicts, counters):
             nan_concat = o["hit"] > 0
             sig = {"kind": kind, "expr": rec["expr"], "shape": rec["shape"], "depth": rec["depth"], "answer": rec["ans"]["vt"],
                    "trigger_nan_concat": nan_concat,
-                   "nan_spelled": ("NaN" in rec["ans"]["s"]) if kind == "value" else ("NaN" in rec["fold"]) if kind == "fold" else False}
+                   # every violating run stops violating when NaN is spelled the way darklua spells it
+                   "nan_spelling_explains": nan_concat and v["expl"][x] == v["viol"][x]}
             if kind == "fold":
                 fd = fold_diff(o)
                 sig["culprit"] = "compute_expression"
